@@ -169,7 +169,7 @@ func c03Prop(c Case) common.Result {
 }
 
 func genC03(rt *rapid.T) Case {
-	o := GenOpts{Actor: true, Twins: true, ByView: true, MaxSteps: 140, ActorBias: 28,
+	o := GenOpts{Actor: true, Twins: true, ByView: true, MaxSteps: 140, MinFaulty: 1, ActorBias: 28,
 		ActorWeights: map[int]int{AProposeHonest: 4, AProposeWeird: 8, AVote: 1, AAssembleQC: 3, ARelabelQC: 4, ATimeout: 2, ANewView: 2,
 			ARepeatQC: 2, AReplay: 3, AEquivocate: 6, AToggleFetch: 1, AVoteHonestly: 4, AForgedTC: 1, AProposeSkip: 6, AProposeStaleQC: 5, AProposeOnForged: 6}}
 	cfg := GenConfig(rt, o)
